@@ -74,11 +74,18 @@ pub fn run_world_t(plan: &Rc<Plan>) -> Result<History, String> {
     let wr = RawRec { core: Rc::clone(&core), rec: Recorder::new(&core), events: Rc::clone(&events), polls: Rc::clone(&polls), log_every: (plan.seed % 3 == 0).then(|| 2 + (plan.seed / 3 % 5) as usize), logged: 0 };
     let opts = cli::Opts { re_filter: None, tags_filter: None, parser: cli::Empty, runner: runa::build_cli(plan), writer: cli::Empty, custom: cli::Empty };
     let warn = world::warn_filter_of(plan);
-    let cuc = Cucumber::<SimWorld, _, (), _, _, cli::Empty>::custom(SimParser(stream), runa::build_runner(plan), wr)
-        .configure_and_init_tracing(format::DefaultFields::new(), Format::default().without_time().with_ansi(false), |layer| {
+    let base = Cucumber::<SimWorld, _, (), _, _, cli::Empty>::custom(SimParser(stream), runa::build_runner(plan), wr);
+    let cuc = if plan.tracing_targets_only {
+        // only the user's own targets are enabled: cucumber's spans are filtered out
+        base.configure_and_init_tracing(format::DefaultFields::new(), Format::default().without_time().with_ansi(false), |layer| {
+            tracing_subscriber::registry().with(tracing_subscriber::filter::Targets::new().with_target("cucumber_sim", tracing::Level::INFO).and_then(layer))
+        })
+    } else {
+        base.configure_and_init_tracing(format::DefaultFields::new(), Format::default().without_time().with_ansi(false), |layer| {
             tracing_subscriber::registry().with(if warn { LevelFilter::WARN } else { LevelFilter::INFO }.and_then(layer))
         })
-        .with_cli(opts);
+    }
+    .with_cli(opts);
     let ended = Rc::new(std::cell::Cell::new(false));
     let ended2 = Rc::clone(&ended);
     // Half of the runs poll the whole pipeline inside a span of the caller's own (a user who
@@ -181,12 +188,19 @@ pub fn c20(a: &Analysis<'_>, out: &mut Vec<Violation>) {
     }
     // World id -> scenario name (from callbacks that identify it)
     let mut world_scenario: BTreeMap<u64, String> = BTreeMap::new();
-    let own_step_owner: BTreeMap<String, String> = a
-        .st
-        .scenarios
-        .values()
-        .flat_map(|s| s.steps.iter().filter(|(_, _, bg)| !*bg).map(move |(t, _, _)| (crate::plan::site_step(t), s.name.clone())))
-        .collect();
+    // own (non-background) step site -> the scenario it belongs to, if it belongs to one only
+    // (position-less plans may use one step text in two scenarios)
+    let own_step_owner: BTreeMap<String, String> = {
+        let mut owners: BTreeMap<String, std::collections::BTreeSet<String>> = BTreeMap::new();
+        for s in a.st.scenarios.values() {
+            for (t, _, bg) in &s.steps {
+                if !*bg {
+                    owners.entry(crate::plan::site_step(t)).or_default().insert(s.name.clone());
+                }
+            }
+        }
+        owners.into_iter().filter(|(_, names)| names.len() == 1).map(|(site, names)| (site, names.into_iter().next().unwrap())).collect()
+    };
     for c in &a.h.cb {
         let Some(w) = c.world else { continue };
         let name = match c.kind {
